@@ -11,7 +11,7 @@ LEVEL = "exploration"
 TECHNIQUE = "runtime monitor: a delegating budget wrapper (extension API) logs every is_done check (evaluations so far, inner verdict, best fitness) and a fitness-invocation log gives the true count; an offline checker over the check history decides first-check-after-n, the bounds, TargetFitness at its first satisfying check and AnyOf == a or b; termination is decided as bounded progress by a logical watchdog on the number of checks"
 RULE = (
     "cases = (algorithm in GP/RS/HC/1+1, n in 1..60, population / neighbourhood size 1..12, representation, step composition incl. zero-creation ones, "
-    "budget in {EvaluationBudget, TargetFitness, AnyOf of both in either order}, integer-valued landscape incl. plateaus and never-reaching ones); "
+    "budget in {EvaluationBudget, TargetFitness, AnyOf of both in either order}, integer-valued landscape incl. plateaus and never-reaching ones); plus runs through the geml.SimpleGP front-end (target_fitness in None/0/0.0/-0.0/other, max_evaluations), whose own budget is wrapped after construction; "
     "distinct_nontrivial = distinct (algorithm, n, size, budget kind, check history) observations with at least two checks"
 )
 ASSUMPTIONS = [
@@ -24,7 +24,7 @@ PLAN = {
     "thorough": {"shards": 16, "shard_timeout": 3600, "case_timeout": 60, "runs": 1200000, "max_case_timeouts": 10},
 }
 THRESHOLDS = {
-    "quick": {"runs_checked": 600, "budget_checks": 5000, "alg:gp": 100, "alg:rs": 100, "alg:hc": 100, "alg:opo": 100, "kind:evaluation": 200, "kind:target": 100, "kind:anyof": 150, "target_reached_runs": 60, "zero_creation_runs": 10, "selection_after_variation_runs": 40},
+    "quick": {"runs_checked": 600, "budget_checks": 5000, "alg:gp": 100, "alg:rs": 100, "alg:hc": 100, "alg:opo": 100, "kind:evaluation": 200, "kind:target": 100, "kind:anyof": 150, "target_reached_runs": 60, "zero_creation_runs": 10, "selection_after_variation_runs": 40, "frontend_runs": 40, "frontend_runs_with_target_zero": 10, "frontend_target_reached_runs": 15},
     "thorough": {"runs_checked": 15000, "budget_checks": 120000, "zero_creation_runs": 300},
 }
 
@@ -50,9 +50,98 @@ def gen_cases(tier, seed):
             "step": rng.choice(["default", "default", "mut", "elitism-only", "cx0-mut0", "mut-then-tournament", "par-mut-then-tournament", "mut-then-elitism"]) if alg == "gp" else None,
             "seed": rng.randrange(10**6),
         }
+    yield from gen_frontend(rng, max(60, PLAN[tier]["runs"] // 20))
+
+
+def gen_frontend(rng, n):
+    """The documented front-end (geml.SimpleGP) builds its own disjunction of budgets from keyword arguments."""
+    for _ in range(n):
+        yield {
+            "front": "simplegp",
+            "target": rng.choice([None, 0, 0.0, -0.0, 0, 5, -3.5, 1e-9, 100.0]),
+            "minimize": rng.random() < 0.5,
+            "max_evaluations": rng.choice([30, 45, 60, 90]),
+            "pop": rng.choice([3, 4, 6, 10]),
+            "target_at": rng.randint(1, 40),
+            "landscape": rng.choice(["plateau", "plateau", "counter", "never"]),
+            "repr": "treebased",  # the front-end's GrowInitializer only accepts the tree representation
+            "seed": rng.randrange(10**6),
+        }
+
+
+def run_frontend(case, rec):
+    from geml.simplegp import SimpleGP
+    from geneticengine.evaluation.budget import SearchBudget
+
+    g, _ = evo.tiny()
+    target, minimize, cap = case["target"], case["minimize"], case["max_evaluations"]
+    t = 0.0 if target is None else float(target)
+    calls = [0]
+
+    def f(p):
+        calls[0] += 1
+        k = calls[0]
+        worse = (1 + k % 5) if minimize else -(1 + k % 5)  # never within tolerance of the target, always worse than it
+        if case["landscape"] == "plateau" and k >= case["target_at"]:
+            return t
+        if case["landscape"] == "counter" and k == case["target_at"]:
+            return t
+        return t + worse
+
+    log: list = []
+
+    class Watching(SearchBudget):  # delegating wrapper around the budget the front-end built
+        def __init__(self, inner):
+            self.inner = inner
+
+        def is_done(self, tr):
+            verdict = self.inner.is_done(tr)
+            best = tr.get_best_individual()
+            log.append({"evals": tr.get_number_evaluations(), "calls": calls[0], "verdict": bool(verdict), "best": None if best is None else best.get_fitness(tr.get_problem()).fitness_components[0]})
+            if len(log) > cap + 200:
+                raise Stalled()
+            return verdict
+
+    wit = {"front": "SimpleGP", "target_fitness": repr(target), "minimize": minimize, "max_evaluations": cap, "population": case["pop"], "landscape": case["landscape"], "target_at": case["target_at"], "repr": case["repr"]}
+    try:
+        gp = SimpleGP(f, g, minimize=minimize, target_fitness=target, representation=case["repr"], max_depth=4, max_evaluations=cap, max_time=600, seed=case["seed"], population_size=case["pop"], elitism=1, novelty=1)
+        gp.gp.budget = Watching(gp.gp.budget)
+        gp.search()
+    except Stalled:
+        rec.violation("non-termination:creating-step:frontend", dict(wit, checks=len(log)))
+        return
+    except core.CaseTimeout:
+        raise
+    except BaseException as e:  # noqa
+        rec.violation(f"search:raises:{type(e).__name__}@{core.exc_site(e)}", dict(wit, error=core.short(e)))
+        return
+    rec.count("frontend_runs")
+    rec.count("evaluations")
+    rec.count("budget_checks", len(log))
+    if target is not None and float(target) == 0.0:
+        rec.count("frontend_runs_with_target_zero")
+    if not log:
+        rec.violation("budget-never-checked", wit)
+        return
+    reached = [target is not None and e["best"] is not None and abs(e["best"] - t) < 1e-4 for e in log]
+    first = next((i for i, (ok, e) in enumerate(zip(reached, log)) if ok or e["evals"] >= cap), None)
+    hist = [(e["evals"], e["best"], e["verdict"]) for e in log[-6:]]
+    if not log[-1]["verdict"] or any(e["verdict"] for e in log[:-1]):
+        rec.violation("search-continued-after-a-true-check-or-stopped-on-a-false-one", dict(wit, history=hist))
+    elif first != len(log) - 1:
+        which = "target" if first is not None and reached[first] else "evaluation"
+        rec.violation(f"frontend:{'stopped-before-either-member' if first is None else 'continued-after-a-member-was-done'}:{which}", dict(wit, history=hist, expected_last_check=first, checks=len(log)))
+    else:
+        if reached[-1]:
+            rec.count("frontend_target_reached_runs")
+            rec.count("target_reached_runs")
+        rec.distinct_add(["frontend", wit, [(e["evals"], e["verdict"]) for e in log]])
+    rec.sample(dict(wit, checks=len(log), total_evaluations=log[-1]["evals"], last_checks=hist[-3:]), cap=3)
 
 
 def run_case(case, rec):
+    if case.get("front") == "simplegp":
+        return run_frontend(case, rec)
     from geneticengine.algorithms.gp.gp import GeneticProgramming
     from geneticengine.algorithms.gp.operators.combinators import ParallelStep, SequenceStep
     from geneticengine.algorithms.gp.operators.crossover import GenericCrossoverStep
